@@ -2,7 +2,7 @@
 //!
 //! This binary is the *serial* build. Every case is computed here (serial code paths) and, through a
 //! long-lived child process `c14p` (the same operations compiled with the `parallel` feature, built in the
-//! separate workspace /verif/harness/par), inside rayon pools of 1, 2, 3, 5, 6, 7, 8, 12, 16 and 33
+//! separate workspace /verif/harness/par), inside rayon pools of 1, 2, 3, 4, 5, 6, 7, 8, 12, 16, 24, 32, 33 and 64
 //! threads. All results must be byte-identical.
 use c14_ops::{digest, ops};
 use std::cell::RefCell;
@@ -119,9 +119,9 @@ fn relations(tier: Tier) -> Vec<Rel> {
 fn main() {
     vh_core::engine::main(PropSpec {
         id: "C14",
-        rule: "Each case (operation, sizes, data seed) is decoded from a proptest tape; sizes are biased towards the work-splitting thresholds of the parallel code (16-coefficient Horner chunks, 2^7 roots-of-unity recursion, 1024-element chunks, 2^10 butterfly gap, 32-term MSM window switch, 4-pair Miller-loop chunks). The serial build (this binary) computes the canonical serialization of the result; the parallel build (c14p) recomputes it inside rayon pools of 1,2,3,5,6,7,8,12,16,33 threads; all digests must agree. Non-trivial: input size above the operation's parallel threshold; distinct = distinct decoded choice sequences. evaluations counts serial-vs-pool comparisons.",
+        rule: "Each case (operation, sizes, data seed) is decoded from a proptest tape; sizes are biased towards the work-splitting thresholds of the parallel code (16-coefficient Horner chunks, 2^7 roots-of-unity recursion, 1024-element chunks, 2^10 butterfly gap, 32-term MSM window switch, 4-pair Miller-loop chunks). The serial build (this binary) computes the canonical serialization of the result; the parallel build (c14p) recomputes it inside rayon pools of 1,2,3,4,5,6,7,8,12,16,24,32,33,64 threads; all digests must agree. Non-trivial: input size above the operation's parallel threshold; distinct = distinct decoded choice sequences. evaluations counts serial-vs-pool comparisons.",
         assumptions: &[
-            "work-stealing schedules are sampled (10 pools per case), not enumerated: all parallel code is data-parallel over disjoint chunks with deterministic reductions in a field/group, forbid(unsafe_code) + rayon's API exclude data races, so the result is a function of (input, pool size), which is what is generated",
+            "work-stealing schedules are sampled (14 pools per case), not enumerated: all parallel code is data-parallel over disjoint chunks with deterministic reductions in a field/group, forbid(unsafe_code) + rayon's API exclude data races, so the result is a function of (input, pool size), which is what is generated",
             "correctness of the serial results themselves is the subject of C01/C03-C08/C17/C18",
             "digests: two independent 64-bit hashes + length of the canonical serialization",
         ],
